@@ -1,6 +1,7 @@
 \* the pinned implementation shape (dict-keyed argument renaming) on 2A -> B: TLC must find SumRule violated
 CONSTANTS
     Tpls = {"homo"}
+    Ords = {"std"}
     MaxNL = 2
     MaxL = 4
     ShortMaps = TRUE
